@@ -241,7 +241,7 @@ class Exec(ExprMixin):
         ra = then_fn(sa)
         rb = else_fn(sb)
         import os
-        if not os.environ.get('PYVC_NOMERGE') and len(ra) == 1 and len(rb) == 1 and len(ra[0].pc) > n and len(rb[0].pc) > n \
+        if not os.environ.get('PYVC_NOMERGE') and not self.contract.no_merge and len(ra) == 1 and len(rb) == 1 and len(ra[0].pc) > n and len(rb[0].pc) > n \
                 and z3.eq(ra[0].pc[n], c) and z3.eq(rb[0].pc[n], z3.Not(c)):
             try:
                 return [merge_states(n, c, ra[0], rb[0])]
